@@ -30,6 +30,11 @@ theorem frag_irrelevant (c1 c2 : List Bytes) (h : c1.flatten = c2.flatten) (cfg 
     run cfg c1 = run cfg c2 := by
   simp only [run, frag_invariant, h]
 
+/-- In particular the result for any fragmentation is the result for the unfragmented
+    stream (the driver uses this to run the model once per stream instead of once per chunk). -/
+theorem run_single (cfg : Cfg) (chunks : List Bytes) : run cfg chunks = run cfg [chunks.flatten] :=
+  frag_irrelevant chunks [chunks.flatten] (by simp) cfg
+
 /-- Framing round-trip: what `Send` writes for well-formed segments parses back to exactly
     those segments (payload bytes, protocol id field, order), ending at a clean boundary. -/
 theorem roundtrip (segs : List Seg) (h : ∀ s ∈ segs, SegOk s) :
@@ -71,30 +76,24 @@ def modeAllows (mode : Nat) (r : Role) : Prop :=
   ¬ (mode = 1 ∧ r = Role.responder) ∧ ¬ (mode = 2 ∧ r = Role.initiator)
 
 theorem lookup_exact (c : Cfg) (id k : Nat) (role r : Role) (h : lookup c id role = .deliver k r) :
-    (k, r) ∈ c.regs ∧ r = role ∧
-    (k = id ∨ (k = protocolUnknown ∧ ∀ x ∈ c.regs, x.1 ≠ id)) := by
+    hasKey c.regs k r = true ∧ r = role ∧
+    (k = id ∨ (k = protocolUnknown ∧ hasId c.regs id = false)) := by
   unfold lookup at h
-  by_cases a1 : c.regs.any (fun r => r.1 == id) = true
+  by_cases a1 : hasId c.regs id = true
   · simp only [a1, ↓reduceIte] at h
-    by_cases a2 : c.regs.contains (id, role) = true
+    by_cases a2 : hasKey c.regs id role = true
     · simp only [a2, ↓reduceIte, Routed.deliver.injEq] at h
       obtain ⟨rfl, rfl⟩ := h
-      exact ⟨by simpa using a2, rfl, Or.inl rfl⟩
-    · have a2' : (id, role) ∉ c.regs := by simpa using a2
-      simp [a2'] at h
+      exact ⟨a2, rfl, Or.inl rfl⟩
+    · simp [a2] at h
   · simp only [a1, Bool.false_eq_true, ↓reduceIte] at h
-    by_cases a3 : c.regs.any (fun r => r.1 == protocolUnknown) = true
+    by_cases a3 : hasId c.regs protocolUnknown = true
     · simp only [a3, ↓reduceIte] at h
-      by_cases a4 : c.regs.contains (protocolUnknown, role) = true
+      by_cases a4 : hasKey c.regs protocolUnknown role = true
       · simp only [a4, ↓reduceIte, Routed.deliver.injEq] at h
         obtain ⟨rfl, rfl⟩ := h
-        refine ⟨by simpa using a4, rfl, Or.inr ⟨rfl, ?_⟩⟩
-        intro x hx hxe
-        apply a1
-        simp only [List.any_eq_true, beq_iff_eq]
-        exact ⟨x, hx, hxe⟩
-      · have a4' : (protocolUnknown, role) ∉ c.regs := by simpa using a4
-        simp [a4'] at h
+        exact ⟨a4, rfl, Or.inr ⟨rfl, by simpa using a1⟩⟩
+      · simp [a4] at h
     · simp [a3] at h
 
 /-- Routing is exact: a segment is delivered only to a registered receiver whose role is
@@ -102,9 +101,9 @@ theorem lookup_exact (c : Cfg) (id k : Nat) (role r : Role) (h : lookup c id rol
     direction, and only under its own protocol number (or the registered catch-all
     `ProtocolUnknown` receiver when the number has no receiver map at all). -/
 theorem routing_exact (c : Cfg) (pid k : Nat) (r : Role) (h : route c pid = .deliver k r) :
-    (k, r) ∈ c.regs ∧ r = roleOf pid ∧ modeAllows c.mode r ∧
+    hasKey c.regs k r = true ∧ r = roleOf pid ∧ modeAllows c.mode r ∧
     (k = getProtocolId pid ∨
-      (k = protocolUnknown ∧ ∀ x ∈ c.regs, x.1 ≠ getProtocolId pid)) := by
+      (k = protocolUnknown ∧ hasId c.regs (getProtocolId pid) = false)) := by
   unfold route at h
   by_cases h1 : c.mode = 1 ∧ isResponse pid = false
   · simp [h1] at h
@@ -144,13 +143,20 @@ theorem pidOf_key (k : Nat × Role) (hk : k.1 < 32768) :
 
 /-- Conversely a registered receiver gets every segment addressed to it when the mode
     allows the direction. -/
+theorem hasKey_hasId (m : RegMap) (id : Nat) (r : Role) (h : hasKey m id r = true) :
+    hasId m id = true := by
+  unfold hasKey at h
+  unfold hasId
+  cases hr : rolesOf m id with
+  | none => simp [hr] at h
+  | some rs => rfl
+
 theorem routing_complete (c : Cfg) (id : Nat) (r : Role) (hid : id < 32768)
-    (hreg : (id, r) ∈ c.regs) (hm : modeAllows c.mode r) :
+    (hreg : hasKey c.regs id r = true) (hm : modeAllows c.mode r) :
     route c (pidOf (id, r)) = .deliver id r := by
   have hk := pidOf_key (id, r) hid
   simp only [Prod.mk.injEq] at hk
-  have hany : c.regs.any (fun x => x.1 == id) = true := by
-    simp only [List.any_eq_true, beq_iff_eq]; exact ⟨(id, r), hreg, rfl⟩
+  have hany : hasId c.regs id = true := hasKey_hasId _ _ _ hreg
   have hresp : isResponse (pidOf (id, r)) = decide (r = Role.initiator) := by
     have := hk.2
     unfold roleOf at this
@@ -159,8 +165,7 @@ theorem routing_complete (c : Cfg) (id : Nat) (r : Role) (hid : id < 32768)
   unfold route
   rw [hk.1, hk.2, hresp]
   unfold lookup
-  have hc : c.regs.contains (id, r) = true := by simpa using hreg
-  simp only [hany, hc, ↓reduceIte]
+  simp only [hany, hreg, ↓reduceIte]
   cases r <;> simp_all
 
 /-- A received zero-length segment closes the connection with an error, whatever follows
@@ -212,32 +217,209 @@ theorem run_zero_len_is_error (c : Cfg) (chunks : List Bytes)
 /-- A segment for an unregistered protocol (no receiver map for its number, no catch-all)
     is never delivered: it yields the `unknownProto` error, or a direction error. -/
 theorem unregistered_closes (c : Cfg) (pid : Nat)
-    (h1 : ∀ x ∈ c.regs, x.1 ≠ getProtocolId pid) (h2 : ∀ x ∈ c.regs, x.1 ≠ protocolUnknown) :
+    (h1 : hasId c.regs (getProtocolId pid) = false) (h2 : hasId c.regs protocolUnknown = false) :
     ∃ e, route c pid = .err e := by
-  have a1 : c.regs.any (fun r => r.1 == getProtocolId pid) = false := by
-    simp only [List.any_eq_false, beq_iff_eq]; exact h1
-  have a2 : c.regs.any (fun r => r.1 == protocolUnknown) = false := by
-    simp only [List.any_eq_false, beq_iff_eq]; exact h2
   unfold route lookup
-  simp only [a1, a2]
+  simp only [h1, h2]
   split
   · exact ⟨_, rfl⟩
   · split <;> exact ⟨_, rfl⟩
 
-/-- A registered protocol number whose role is not registered is an error too (no fall back). -/
+/-- A protocol number that has (or once had) a receiver but none for this role is an error
+    too: there is no fall back to the catch-all. -/
 theorem wrong_role_closes (c : Cfg) (pid : Nat)
-    (h : (getProtocolId pid, roleOf pid) ∉ c.regs)
-    (h1 : ∃ x ∈ c.regs, x.1 = getProtocolId pid) :
+    (h : hasKey c.regs (getProtocolId pid) (roleOf pid) = false)
+    (h1 : hasId c.regs (getProtocolId pid) = true) :
     ∃ e, route c pid = .err e := by
-  have a1 : c.regs.any (fun r => r.1 == getProtocolId pid) = true := by
-    simp only [List.any_eq_true, beq_iff_eq]; exact h1
-  have a3 : c.regs.contains (getProtocolId pid, roleOf pid) = false := by
-    simpa using h
   unfold route lookup
-  simp only [a1, a3]
+  simp only [h1, h]
   split
   · exact ⟨_, rfl⟩
   · split <;> exact ⟨_, rfl⟩
+
+/-! ### Registrations are per (protocol, role); `UnregisterProtocol` removes exactly one -/
+
+theorem rolesOf_setRoles_same (m : RegMap) (id : Nat) (rs : List Role) :
+    rolesOf (setRoles m id rs) id = some rs := by
+  induction m with
+  | nil => simp [setRoles, rolesOf]
+  | cons x t ih =>
+    obtain ⟨i, r0⟩ := x
+    by_cases h : i = id
+    · simp [setRoles, rolesOf, h]
+    · simp [setRoles, rolesOf, h, ih]
+
+theorem rolesOf_setRoles_other (m : RegMap) (id id' : Nat) (rs : List Role) (hne : id' ≠ id) :
+    rolesOf (setRoles m id rs) id' = rolesOf m id' := by
+  induction m with
+  | nil =>
+    have : ¬ id = id' := fun h => hne h.symm
+    simp [setRoles, rolesOf, this]
+  | cons x t ih =>
+    obtain ⟨i, r0⟩ := x
+    by_cases h : i = id
+    · subst h
+      have : ¬ i = id' := fun h => hne h.symm
+      simp [setRoles, rolesOf, this]
+    · by_cases h2 : i = id'
+      · subst h2
+        simp [setRoles, rolesOf, hne]
+      · simp [setRoles, rolesOf, h, h2, ih]
+
+theorem unregister_some (m : RegMap) (id : Nat) (r : Role) (rs : List Role)
+    (hr : rolesOf m id = some rs) :
+    unregister m id r = if rs.contains r = true then setRoles m id (rs.filter (· != r)) else m := by
+  unfold unregister; rw [hr]
+
+theorem unregister_none (m : RegMap) (id : Nat) (r : Role) (hr : rolesOf m id = none) :
+    unregister m id r = m := by
+  unfold unregister; rw [hr]
+
+theorem register_some (m : RegMap) (id : Nat) (r : Role) (rs : List Role)
+    (hr : rolesOf m id = some rs) :
+    register m id r = if rs.contains r = true then m else setRoles m id (r :: rs) := by
+  unfold register; rw [hr]
+
+theorem register_none (m : RegMap) (id : Nat) (r : Role) (hr : rolesOf m id = none) :
+    register m id r = setRoles m id [r] := by
+  unfold register; rw [hr]
+
+theorem role_ne_contains (rs : List Role) (r r' : Role) (h : r' ≠ r) :
+    (rs.filter (· != r)).contains r' = rs.contains r' := by
+  induction rs with
+  | nil => rfl
+  | cons x t ih =>
+    by_cases hx : x = r
+    · subst hx
+      have : ¬ (r' = x) := h
+      simp [this]
+    · have hx' : (x != r) = true := by simpa using hx
+      simp only [List.filter_cons, hx', ↓reduceIte, List.contains_cons]
+      rw [ih]
+
+/-- `UnregisterProtocol(id, role)` removes that receiver … -/
+theorem unregister_removes (m : RegMap) (id : Nat) (r : Role) :
+    hasKey (unregister m id r) id r = false := by
+  cases hr : rolesOf m id with
+  | none => rw [unregister_none m id r hr]; simp [hasKey, hr]
+  | some rs =>
+    rw [unregister_some m id r rs hr]
+    by_cases hc : rs.contains r = true
+    · rw [if_pos hc]
+      simp [hasKey, rolesOf_setRoles_same]
+    · rw [if_neg hc]
+      simp only [hasKey, hr]
+      simpa using hc
+
+/-- … and nothing else: every other (protocol, role) receiver — in particular the other role
+    of the same protocol — stays registered or unregistered exactly as it was. -/
+theorem unregister_keeps_others (m : RegMap) (id id' : Nat) (r r' : Role)
+    (hne : id' ≠ id ∨ r' ≠ r) :
+    hasKey (unregister m id r) id' r' = hasKey m id' r' := by
+  cases hr : rolesOf m id with
+  | none => rw [unregister_none m id r hr]
+  | some rs =>
+    rw [unregister_some m id r rs hr]
+    by_cases hc : rs.contains r = true
+    · rw [if_pos hc]
+      by_cases hid : id' = id
+      · subst hid
+        have hrr : r' ≠ r := by
+          rcases hne with h | h
+          · exact absurd rfl h
+          · exact h
+        simp only [hasKey, rolesOf_setRoles_same, hr]
+        exact role_ne_contains rs r r' hrr
+      · simp only [hasKey, rolesOf_setRoles_other m id id' _ hid]
+    · rw [if_neg hc]
+
+/-- The protocol's receiver map itself survives `UnregisterProtocol`: afterwards a segment
+    for the unregistered role is an error even when a catch-all receiver exists. -/
+theorem unregister_keeps_id (m : RegMap) (id id' : Nat) (r : Role) :
+    hasId (unregister m id r) id' = hasId m id' := by
+  cases hr : rolesOf m id with
+  | none => rw [unregister_none m id r hr]
+  | some rs =>
+    rw [unregister_some m id r rs hr]
+    by_cases hc : rs.contains r = true
+    · rw [if_pos hc]
+      by_cases hid : id' = id
+      · subst hid; simp [hasId, rolesOf_setRoles_same, hr]
+      · simp only [hasId]; rw [rolesOf_setRoles_other m id id' _ hid]
+    · rw [if_neg hc]
+
+theorem unregistered_role_closes (mode : Nat) (m : RegMap) (id : Nat) (r : Role)
+    (hid : id < 32768) (hwas : hasId m id = true) :
+    ∃ e, route ⟨mode, unregister m id r⟩ (pidOf (id, r)) = .err e := by
+  have hk := pidOf_key (id, r) hid
+  simp only [Prod.mk.injEq] at hk
+  apply wrong_role_closes
+  · simp only [hk.1, hk.2]; exact unregister_removes m id r
+  · simp only [hk.1]; rw [unregister_keeps_id]; exact hwas
+
+theorem register_adds (m : RegMap) (id : Nat) (r : Role) : hasKey (register m id r) id r = true := by
+  cases hr : rolesOf m id with
+  | none => rw [register_none m id r hr]; simp [hasKey, rolesOf_setRoles_same]
+  | some rs =>
+    rw [register_some m id r rs hr]
+    by_cases hc : rs.contains r = true
+    · rw [if_pos hc]; simp only [hasKey, hr]; exact hc
+    · rw [if_neg hc]; simp [hasKey, rolesOf_setRoles_same]
+
+theorem register_keeps_others (m : RegMap) (id id' : Nat) (r r' : Role)
+    (hne : id' ≠ id ∨ r' ≠ r) :
+    hasKey (register m id r) id' r' = hasKey m id' r' := by
+  have hrr : id' = id → r' ≠ r := by
+    intro h
+    rcases hne with h' | h'
+    · exact absurd h h'
+    · exact h'
+  cases hr : rolesOf m id with
+  | none =>
+    rw [register_none m id r hr]
+    by_cases hid : id' = id
+    · subst hid
+      have := hrr rfl
+      simp only [hasKey, rolesOf_setRoles_same, hr]
+      cases r <;> cases r' <;> simp_all
+    · simp only [hasKey, rolesOf_setRoles_other m id id' _ hid]
+  | some rs =>
+    rw [register_some m id r rs hr]
+    by_cases hc : rs.contains r = true
+    · rw [if_pos hc]
+    · rw [if_neg hc]
+      by_cases hid : id' = id
+      · subst hid
+        have := hrr rfl
+        simp only [hasKey, rolesOf_setRoles_same, hr, List.contains_cons]
+        cases r <;> cases r' <;> simp_all
+      · simp only [hasKey, rolesOf_setRoles_other m id id' _ hid]
+
+/-- **The machine with run-time registration changes, restricted to reads, is `run`.** Hence
+    `delivery_intact`, `frag_irrelevant`, … hold verbatim for `runActs` on every stretch of
+    reads between two registration changes. -/
+theorem runActs_data (c : Cfg) (chunks : List Bytes) :
+    runActs c.mode c.regs (chunks.map Act.data) = run c chunks := by
+  have hinit : MState.init c.regs = mstateOf c RState.init := by
+    simp [mstateOf, MState.init, RState.init, routeAll, Phase.init]
+  unfold runActs
+  rw [hinit, fold_data_mstateOf c chunks RState.init]
+  unfold run mstateOf RState.result
+  simp only
+  cases hra : routeAll c (feedAll RState.init chunks).rout.reverse with
+  | mk ds oe =>
+    cases oe with
+    | some e => simp
+    | none =>
+      by_cases hP : (feedAll RState.init chunks).phase = Phase.halted
+      · simp [hP, endOf]
+      · simp [hP]
+
+/-- Registration changes do not touch what has been read or delivered. -/
+theorem act_reg_unreg_keep (mode : Nat) (s : MState) (id : Nat) (r : Role) :
+    (MState.act mode s (.unreg id r)).rout = s.rout ∧ (MState.act mode s (.unreg id r)).phase = s.phase ∧
+    (MState.act mode s (.reg id r)).rout = s.rout ∧ (MState.act mode s (.reg id r)).phase = s.phase := by
+  simp [MState.act]
 
 theorem interleaving_mem {α : Type} (ls : List (List α)) (w : List α) (hi : Interleaving ls w) :
     ∀ a ∈ w, ∃ (i : Nat) (l : List α), ls[i]? = some l ∧ a ∈ l := by
@@ -268,7 +450,7 @@ theorem delivery_intact (c : Cfg) (keys : List (Nat × Role)) (ls : List (List S
     (w : List Seg) (chunks : List Bytes)
     (hlen : ls.length = keys.length) (hnd : keys.Nodup)
     (hid : ∀ k ∈ keys, k.1 < 32768)
-    (hreg : ∀ k ∈ keys, k ∈ c.regs ∧ modeAllows c.mode k.2)
+    (hreg : ∀ k ∈ keys, hasKey c.regs k.1 k.2 = true ∧ modeAllows c.mode k.2)
     (hseg : ∀ (i : Nat) (l : List Seg) (k : Nat × Role), ls[i]? = some l → keys[i]? = some k →
       ∀ s ∈ l, SegOk s ∧ s.pid = pidOf k)
     (hi : Interleaving ls w)
@@ -343,20 +525,31 @@ theorem delivery_intact (c : Cfg) (keys : List (Nat × Role)) (ls : List (List S
 
 /-- Two segments for two receivers, the stream cut in the middle of a header and of a
     payload: both are delivered, each to its own receiver. -/
-example : run ⟨3, [(2, .responder), (3, .initiator)]⟩
+example : run ⟨3, [(2, [.responder]), (3, [.initiator])]⟩
       [[0, 0, 0, 0, 0, 2], [0, 1, 7, 0, 0, 0, 0, 0x80, 3, 0, 2], [8, 9]] =
     ([((2, .responder), [7]), ((3, .initiator), [8, 9])], End.eofHeader) := by decide
 
 /-- A zero-length header after a good segment: the good one is delivered, then the error. -/
-example : run ⟨3, [(2, .responder)]⟩ [[0, 0, 0, 0, 0, 2, 0, 1, 7, 0, 0, 0, 0, 0, 2, 0, 0, 5]] =
+example : run ⟨3, [(2, [.responder])]⟩ [[0, 0, 0, 0, 0, 2, 0, 1, 7, 0, 0, 0, 0, 0, 2, 0, 0, 5]] =
     ([((2, .responder), [7])], End.zeroLen) := by decide
 
 -- Unregistered protocol / wrong direction / initiator-only mode.
 set_option maxRecDepth 8192 in
-example : (run ⟨3, [(2, .responder)]⟩ [[0, 0, 0, 0, 0, 3, 0, 1, 7]]).2 = End.unknownProto 3 := by decide
+example : (run ⟨3, [(2, [.responder])]⟩ [[0, 0, 0, 0, 0, 3, 0, 1, 7]]).2 = End.unknownProto 3 := by decide
 set_option maxRecDepth 8192 in
-example : (run ⟨3, [(2, .responder)]⟩ [[0, 0, 0, 0, 0x80, 2, 0, 1, 7]]).2 = End.unknownProto 2 := by decide
-example : (run ⟨1, [(2, .responder)]⟩ [[0, 0, 0, 0, 0, 2, 0, 1, 7]]).2 = End.fromInitiator := by decide
+example : (run ⟨3, [(2, [.responder])]⟩ [[0, 0, 0, 0, 0x80, 2, 0, 1, 7]]).2 = End.unknownProto 2 := by decide
+example : (run ⟨1, [(2, [.responder])]⟩ [[0, 0, 0, 0, 0, 2, 0, 1, 7]]).2 = End.fromInitiator := by decide
+
+/-- Unregistering the responder of protocol 2 while the connection runs: the initiator of the
+    same protocol keeps receiving; a later segment for the removed role is an error. -/
+example : runActs 3 [(2, [.initiator, .responder])]
+      [.data [0, 0, 0, 0, 0, 2, 0, 1, 1], .unreg 2 .responder, .data [0, 0, 0, 0, 0x80, 2, 0, 1, 2]] =
+    ([((2, .responder), [1]), ((2, .initiator), [2])], End.eofHeader) := by decide
+
+set_option maxRecDepth 8192 in
+example : runActs 3 [(2, [.initiator, .responder])]
+      [.unreg 2 .responder, .data [0, 0, 0, 0, 0x80, 2, 0, 1, 2, 0, 0, 0, 0, 0, 2, 0, 1, 1]] =
+    ([((2, .initiator), [2])], End.unknownProto 2) := by decide
 
 /-- The hypotheses of `delivery_intact` are met by a concrete two-sender interleaving. -/
 example : ∃ (w : List Seg),
